@@ -52,6 +52,9 @@ struct BackProbe {
     }
     template <class T>
     BackProbe& operator&(const T& t) { return (*this) & const_cast<T&>(t); }
+    // raw blocks (boost::serialization::binary_object and the like): accepted and ignored, the probe only wants the typed members
+    void save_binary(const void*, std::size_t) {}
+    void load_binary(void*, std::size_t) {}
     int busy() const { return bools0.size() >= 1 ? bools0[0] : -1; }
     std::vector<int> hist() const { return arrays1.empty() ? std::vector<int>() : arrays1.back(); }
 };
